@@ -120,6 +120,10 @@ pub(crate) struct LiveEvents<'a> {
     /// Set once a reader error has been reported: the input is truncated from there on, so
     /// error recovery must not resynchronise on whatever the parser still makes of it.
     io_failed: std::cell::Cell<bool>,
+    /// Kind and text of the reader error once it has been reported: whoever received it may have
+    /// chosen to go on (a `Deserialize` impl that falls back to a default), the input is broken
+    /// all the same, and every later pull and `finish` report it again.
+    io_failure: RefCell<Option<(std::io::ErrorKind, String)>>,
     /// A syntax error met while skipping the rest of a failed document; returned by the next pull.
     pending_error: Option<Error>,
 }
@@ -197,6 +201,7 @@ impl<'a> LiveEvents<'a> {
 
             error,
             io_failed: std::cell::Cell::new(false),
+            io_failure: RefCell::new(None),
             pending_error: None,
         }
     }
@@ -248,6 +253,7 @@ impl<'a> LiveEvents<'a> {
             // Error field is provided but for string, nothing is ever reported
             error: Rc::new(RefCell::new(None)),
             io_failed: std::cell::Cell::new(false),
+            io_failure: RefCell::new(None),
             pending_error: None,
         }
     }
@@ -777,7 +783,12 @@ impl<'a> LiveEvents<'a> {
     fn io_error(&self) -> Result<(), Error> {
         if let Some(error) = self.error.take() {
             self.io_failed.set(true);
+            *self.io_failure.borrow_mut() = Some((error.kind(), error.to_string()));
             Err(Error::IOError { cause: error })
+        } else if let Some((kind, text)) = &*self.io_failure.borrow() {
+            Err(Error::IOError {
+                cause: std::io::Error::new(*kind, text.clone()),
+            })
         } else {
             Ok(())
         }
